@@ -220,6 +220,7 @@ func runC18(p *Prog, r *Report) {
 	armEffectRule(p, r, "C18.R6", "config.parseConverterLine", "output:package", "OutputPackagePath", "OutputPackageName")
 	definitionPackageRule(p, r, "C18.R8")
 	enumDisabledRule(p, r, "C18.R9")
+	basicZeroUntypedRule(p, r, "C18.R10")
 	boolSettingRule(p, r, "C18.R7", "wrapErrors", "`wrapErrors no` switches wrapping (and with it the fmt import) off again: evaluated with the command fixed to wrapErrors and parse.Bool fixed to v, config.parseCommon cannot return success with WrapErrors still !v (v = true, false) — an inherited `wrapErrors` is overridden by the inner level", "WrapErrors")
 }
 
